@@ -127,6 +127,15 @@ def run(chk):
             if s == "actions" and not any(T.kind(x["cls"]) in ("action", "menu") for x, _ in T.nodes(t)):
                 continue
             items.append(("s%d_%s%d" % (n, s, len(items)), T.assign_ids(t, s, r)))
+    # shapes outside the tree model that the tool accepts all the same (a layout directly in a tab widget, ...): whatever it makes of them, names stay unique
+    N = lambda cls, *kids: {"kids": list(kids), "cls": cls, "id": "", "sep": False, "acts": []}
+    crafted = [N("QWidget", N("QTabWidget", N("QVBoxLayout", N("QLabel")), N("QWidget")), N("QWidget")),
+               N("QWidget", N("QTabWidget", N("QVBoxLayout"), N("QWidget"), N("QHBoxLayout")), N("QTabWidget", N("QVBoxLayout", N("QWidget")))),
+               N("QTabWidget", N("QVBoxLayout", N("QWidget"), N("QWidget")), N("QWidget", N("QWidget"))),
+               N("QWidget", N("QVBoxLayout", N("QTabWidget", N("QGridLayout", N("QLabel"), N("QWidget")))), N("QWidget"), N("QLabel"))]
+    for n, t in enumerate(crafted):
+        for st in ("anon", "adversarial", "adversarial", "some"):
+            items.append(("x%d_%s%d" % (n, st, len(items)), T.assign_ids(t, st, r)))
     log("C10: %d documents" % len(items))
     exp = T.expect_forms(chk, items)
     extras = {i: plant_refs(t, r) for i, t in items}
